@@ -34,6 +34,12 @@ def rules_compared(b):
             for s in mir.subexprs(atom):
                 if s[0] == "agg" and "::Rule::" in s[1]:
                     out.add(s[1].split("::")[-1])
+            # `match pair.as_rule() { Rule::A | Rule::B => .. }`: a switch on the discriminant, one edge per named rule
+            if atom[0] == "discr" and isinstance(val, str) and any(
+                    (s[0] == "call" and last_seg(s[1]) == "as_rule") or
+                    (s[0] in ("var", "param") and isinstance(s[1], int) and b.locals[s[1]]["ty"].endswith("::Rule"))
+                    for s in mir.subexprs(b.expand_vars(atom[1]))):
+                out.add(val)
     return out
 
 
@@ -181,6 +187,84 @@ def _ret_tuples(b):
     return out
 
 
+def _world_eval(b, e, world, depth=0):
+    """truth of a bool expression when the line is world['line'] and in_loop is world['in_loop']; None = not determined"""
+    from ..etag import norm_guard
+    e = strip_sites(e)
+    if depth > 6:
+        return None
+    cb = const_bool(e)
+    if cb is not None:
+        return cb
+    if e[0] == "un" and e[1] == "Not":
+        v = _world_eval(b, e[2], world, depth + 1)
+        return None if v is None else (not v)
+    if e[0] == "param" and b.locals[e[1]]["ty"] == "bool":
+        return world["in_loop"] if b.names.get(e[1], "in_loop") == "in_loop" else None
+    g = norm_guard(e, True)
+    if g is not None and g[0] == "eq":
+        return (world["line"] == g[2]) == g[3]
+    if e[0] == "var" and b.locals[e[1]]["ty"] == "bool":
+        vals = set()
+        for bi, si in b.defs.get(e[1], []):
+            vals.add(_world_eval(b, b.def_expr(bi, si), world, depth + 1))
+        if len(vals) == 1:
+            return vals.pop()
+        return None
+    ee = b.expand_vars(e)
+    if ee != e:
+        return _world_eval(b, ee, world, depth + 1)
+    return None
+
+
+def _cmd_worlds(b, word, want):
+    """inside the arm for a plain command line: with the line equal to `word`, every return reached under in_loop carries
+    exactly the flags `want`, and without in_loop none carries a raised flag"""
+    entry = None
+    for bb in sorted(b.reachable):
+        for tgt, atom, val in b.switch_edges(bb):
+            is_cmd = (val is True and any(s_[0] == "agg" and s_[1].endswith("::Rule::CMD") for s_ in mir.subexprs(atom))) or \
+                (atom[0] == "discr" and val == "CMD")
+            if is_cmd and entry is None:
+                entry = (bb, tgt)
+    if entry is None:
+        return False
+    region = flow.edge_dominated(b, entry[0], entry[1])
+    rets = {}
+    for bi, si in b.defs.get(0, []):
+        e = strip_sites(b.def_expr(bi, si))
+        if e[0] == "agg" and e[1] == "tuple" and len(e[2]) == 3:
+            rets[bi] = (e[2][1], e[2][2])
+    verdict = True
+    hit = False
+    for in_loop in (True, False):
+        world = {"line": word, "in_loop": in_loop}
+        seen, todo = set(), [entry[1]]
+        while todo:
+            x = todo.pop()
+            if x in seen or x not in region:
+                continue
+            seen.add(x)
+            if x in rets:
+                f = tuple(_world_eval(b, y, world) for y in rets[x])
+                if in_loop:
+                    hit = True
+                    if f != want:
+                        verdict = False
+                elif f != (False, False):
+                    verdict = False
+                continue
+            edges = b.switch_edges(x)
+            if edges:
+                for tgt, atom, val in edges:
+                    tv = _world_eval(b, atom, world) if isinstance(val, bool) else None
+                    if tv is None or tv == val:
+                        todo.append(tgt)
+            else:
+                todo.extend(b.succs[x])
+    return verdict and hit
+
+
 def flag_rules(ctx, crate):
     b = crate.fn("scripting::run_exp")
     if not ctx.require(b is not None, "R14-3", "R14-3|anchor", "scripting::run_exp not found"):
@@ -211,6 +295,10 @@ def flag_rules(ctx, crate):
                 ok = True
             if lit and not inl and (f1, f2) != (False, False) and (f1, f2) == want:
                 ok = False
+        if not ok:
+            # the flags need not be constants (`return (cr_list, is_continue, is_break)`): evaluate the CMD arm in the four
+            # worlds (the word, in_loop)
+            ok = _cmd_worlds(b, word, want)
         ctx.ob("R14-3", b.path, "CMD `%s` returns %s only under in_loop" % (word, want), ok,
                key="R14-3|%s|cmd-%s" % (b.path, word), crate=crate.kind)
     # nothing else raises a flag: every return with a constant `true` in the continue / break position is justified by
